@@ -37,7 +37,9 @@ Definition close (f : form) : ascii := if is_raw f then BQ else DQ.
 
 (** scanStringLiteralToken, from the byte after the opening quote: the token's stringVal and the
     rest of the buffer after the closing quote.  [None] = panic ("unclosed string literal",
-    "escape just before EOF"). Escapes are kept verbatim. *)
+    "escape just before EOF"). Escapes are kept verbatim; a RAW newline is written as the two bytes
+    backslash n (the value is emitted as a Go interpreted string literal, which cannot contain a raw
+    newline) — the same re-escaping the raw-string scanner does. *)
 Fixpoint scan_string (s : bytes) : option (bytes * bytes) :=
   match s with
   | [] => None
@@ -52,8 +54,37 @@ Fixpoint scan_string (s : bytes) : option (bytes * bytes) :=
         | None => None
         end
       end
+    else if Ascii.eqb c LF then
+      match scan_string r with
+      | Some (v, rest) => Some (BS :: "n" :: v, rest)
+      | None => None
+      end
     else
       match scan_string r with
+      | Some (v, rest) => Some (c :: v, rest)
+      | None => None
+      end
+  end.
+
+(** The scanner as it was before the repair (kept as documentation): a raw newline was copied
+    verbatim, so the emitted Go literal contained a raw newline and did not compile
+    ([newline_in_quoted_old_refuted]). *)
+Fixpoint scan_string_old (s : bytes) : option (bytes * bytes) :=
+  match s with
+  | [] => None
+  | c :: r =>
+    if Ascii.eqb c DQ then Some ([], r)
+    else if Ascii.eqb c BS then
+      match r with
+      | [] => None
+      | c2 :: r' =>
+        match scan_string_old r' with
+        | Some (v, rest) => Some (c :: c2 :: v, rest)
+        | None => None
+        end
+      end
+    else
+      match scan_string_old r with
       | Some (v, rest) => Some (c :: v, rest)
       | None => None
       end
@@ -349,6 +380,17 @@ Definition pipeline (f : form) (e : env) (src : bytes) : outcome * bytes :=
     end
   end.
 
+(** the same path with the tokenizer as it was before the repair *)
+Definition pipeline_old (f : form) (e : env) (src : bytes) : outcome * bytes :=
+  match (if is_raw f then scan_raw src else scan_string_old src) with
+  | None => (ScanPanic, [])
+  | Some (lit, rest) =>
+    match emit f lit with
+    | None => (InterpPanic, rest)
+    | Some g => (run e g, rest)
+    end
+  end.
+
 (** ---------------------------------------------------------------- the specification *)
 
 (** The property's grammar of literal bodies, as pieces. *)
@@ -391,7 +433,7 @@ Definition is_esc_letter (c : ascii) : bool :=
       is only the start of one of the escapes the property lists (backslash followed by n, t, backslash or
       double quote, plus backslash-brace in $"...") —
       any other escape is outside the property's grammar (Go's other escapes happen to pass through,
-      unknown ones are Go compile errors); a raw newline — see [ok_char] below;
+      unknown ones, including a backslash followed by a raw newline, are Go compile errors);
     - in `...` and $`...`: a backtick ends the literal;
     - in both interpolated forms a bare { opens a hole, so it is not an ordinary character; a bare } is
       an ordinary character (preserved); a hole's name is an identifier bound in the environment
@@ -400,15 +442,13 @@ Definition is_esc_letter (c : ascii) : bool :=
 Definition ok_char (f : form) (c : ascii) : bool :=
   negb (Ascii.eqb c NUL) &&
   match f with
-  | Str => negb (Ascii.eqb c DQ || Ascii.eqb c BS || Ascii.eqb c LF)
+  | Str => negb (Ascii.eqb c DQ || Ascii.eqb c BS)
   | Raw => negb (Ascii.eqb c BQ)
-  | IStr => negb (Ascii.eqb c DQ || Ascii.eqb c BS || Ascii.eqb c LF || Ascii.eqb c LBR)
+  | IStr => negb (Ascii.eqb c DQ || Ascii.eqb c BS || Ascii.eqb c LBR)
   | IRaw => negb (Ascii.eqb c BQ || Ascii.eqb c LBR)
   end.
-(** A raw newline inside "..." / $"..." is excluded from [ok_char] although the property text
-    ("every other character is preserved", bodies over newline) includes it: the tokenizer keeps it
-    verbatim and Go rejects a newline inside an interpreted string literal.  That case is stated
-    separately as refuted ([newline_in_quoted_refuted]). *)
+(** A raw newline is an ordinary character of every form (since the repair of scanStringLiteralToken
+    the quoted forms re-escape it; before, the emitted Go did not compile: [newline_in_quoted_old_refuted]). *)
 
 Definition ok_piece (f : form) (e : env) (p : piece) : bool :=
   match p with
